@@ -25,6 +25,7 @@ TARGET = {"C05a": "C05", "C05b": "C05", "C06a": "C06", "C13a": "C13", "C17a": "C
           "R2C05": "C05", "R2C06": "C06", "R2C13": "C13", "R2C11": "C11", "R2C03": "C03",
           "R2C08": "C08", "R2C17": "C17", "R2C04": "C04", "R2MIXa": "C05", "R2MIXb": "C06",
           "R4a": "C03", "R4b": "C11", "R4c": "C03", "R4d": "C11", "R4e": "C06", "R4f": "C13", "R4g": "C17", "R4h": "C04",
+          "R8a": "C05", "R8b": "C06", "R8c": "C11", "R8d": "C17",
           "R7a-1": "C17", "R7a-2": "C03", "R7b": "C04", "R7c-1": "C05", "R7c-2": "C06", "R7d-1": "C17", "R7d-2": "C08",
           "R6a": "C03", "R6b": "C11", "R6c": "C05", "R6d": "C17", "R6e": "C06", "R6f": "C13",
           "R5a": "C11", "R5b": "C03", "R5c": "C04", "R5d": "C13", "R5e": "C06", "R5f": "C03",
